@@ -331,6 +331,19 @@ def run_cli(argv):
     return out.getvalue(), err.getvalue(), rv
 
 
+def inspect_lines_of(mo):
+    """what the library's own inspect() prints for the object (no blank lines); None when it raises"""
+    import contextlib, io as _io
+    buf = _io.StringIO()
+    try:
+        with contextlib.redirect_stdout(buf), warnings.catch_warnings():
+            warnings.simplefilter('ignore')
+            mo.inspect()
+    except Exception:  # noqa: BLE001 - C20's business
+        return None
+    return [l for l in buf.getvalue().split('\n') if l.strip()]
+
+
 def file_pool(rng):
     """name -> ('xml', text) | ('notxml', text) | ('missing',) | ('directory',)"""
     g = gen_hist.Gen(rng)
@@ -370,6 +383,9 @@ def file_pool(rng):
     pool['html.xml'] = ('xml', '<html><body/></html>')
     pool['missing.mos.xml'] = ('missing',)
     pool['adir'] = ('directory',)
+    # running orders whose timing metadata is not numeric / not a time: classifiable, so inspect lists their stories and goes on
+    pool['clock_durations_ro.mos.xml'] = ('xml', TJ.to_text(B.ro_doc([B.story('J1', [B.item('j1')], md=B.timing_md(duration='00:01:30')), B.story('J2', [])], message_id='1')))
+    pool['junk_start_ro.mos.xml'] = ('xml', TJ.to_text(B.ro_doc([B.story('J1', [], md=B.timing_md(text_time='nan', media_time=''))], message_id='1', ed_start='tomorrow-ish')))
     return pool
 
 
@@ -511,7 +527,7 @@ def run_c19(tier, seed):
                     ([l for l in split_lines(m_out) if is_detect(l)], marked(split_lines(m_err)), 0):
                 oc.disagreements.append(dict(rec, what='cli output (S3)', impl={'stdout': so[:1500], 'stderr': se[:600], 'status': status},
                                              model={'stdout': m_out[:1500], 'stderr': m_err[:600]}))
-            exp_out, exp_err = [], []
+            exp_out, exp_err, exp_body, body_known = [], [], [], True
             for k in keys:
                 spec = pool[k[4:]]
                 try:
@@ -519,16 +535,24 @@ def run_c19(tier, seed):
                         warnings.simplefilter('ignore')
                         mo = impl.MosFile.from_string(spec[1].encode('utf-8'))
                     exp_out.append(f'{k}: {type(mo).__name__}' + (' (completed)' if mo.completed else ''))
+                    exp_body.append(exp_out[-1])
+                    il = inspect_lines_of(mo)
+                    body_known = body_known and il is not None
+                    exp_body.extend(il or [])
                 except Exception:  # noqa: BLE001
                     exp_err.append(k)
             got = [l for l in split_lines(so) if any(l.startswith(k + ': ') for k in keys)]
             bad = []
             if cmd == 'detect' and (got != exp_out or status != 0):
                 bad.append('detect over S3 keys differs from the library classification of each object in listing order')
+            elif cmd == 'detect' and [l for l in split_lines(so) if l.strip()] != exp_out:
+                bad.append('detect over S3 keys prints something besides one class line per classifiable object')
             if (cmd == 'detect' or r['status'] == 0) and [l.split(': ')[0] for l in split_lines(se) if ': Invalid' in l] != exp_err:
                 bad.append('invalid objects are not all marked (or others were skipped)')
             if cmd == 'inspect' and r['status'] == 0 and status != 0:
                 bad.append(f'inspect aborted with {status}: {se[-200:]}')
+            if cmd == 'inspect' and r['status'] == 0 and body_known and keys and [l for l in split_lines(so) if l.strip()] != exp_body:
+                bad.append("inspect over S3 keys does not print, for every classifiable object in order, its class line followed by what the library's inspect() prints for it")
             if bad:
                 oc.failing.append(dict(rec, spec='; '.join(bad), impl={'stdout': so[:1200], 'stderr': se[:600], 'status': status}))
             oc.nontrivial.add(stable_hash(['s3', cmd, argv]))
@@ -551,6 +575,20 @@ def run_c19(tier, seed):
                                            'spec': 'merge over S3 keys gives what merge over files with the same contents gives',
                                            'impl': {'s3': {'status': status, 'stdout': so[:600], 'stderr': se[:300]},
                                                     'files': {'status': rf, 'stdout': sf[:600]}}})
+        # merge with nothing to merge (no -f, no -b) is an error like any other: status 2 and a message on stderr
+        for extra in ([], ['-i'], ['-n'], ['-n', '-i'], ['-o', os.path.join(root, 'never-written.xml')]):
+            so, se, rv = run_cli(['merge'] + extra)
+            status = 0 if rv is None else (int(rv.split(':')[1]) if isinstance(rv, str) and rv.split(':')[1].lstrip('-').isdigit() else rv)
+            m = lean.run_batch([{'op': 'cli', 'cmd': 'merge', 'files': [], 'incomplete': '-i' in extra, 'non_strict': '-n' in extra}])[0]
+            oc.evaluations += 1
+            oc.in_domain += 1
+            oc.count('cmd:merge/no-input')
+            rec = {'kind': 'cli-noinput', 'cmd': 'merge', 'argv': ['merge'] + extra, 'label': 'merge ' + ' '.join(extra) + ' (no input)'}
+            if m['status'] != 2:
+                oc.disagreements.append(dict(rec, what='cli status', impl={'status': status}, model={'status': m['status']}))
+            if status != 2 or not se.strip() or os.path.exists(os.path.join(root, 'never-written.xml')):
+                oc.failing.append(dict(rec, spec='merge with no input is an error: exit status 2 with a message on stderr, nothing written',
+                                       impl={'status': status, 'returned': str(rv), 'stderr': se[:300], 'stdout': so[:200]}))
         reqs = []
         for cmd, lst, opts in jobs:
             how = opts.setdefault('paths', ('abs', 'bare', 'dot')[len(reqs) % 3] if all(os.sep not in n for n in lst) else 'abs')
@@ -588,18 +626,26 @@ def run_c19(tier, seed):
                 elif status != 2:
                     oc.disagreements.append(dict(rec, what='cli status', impl={'status': status, 'stderr': se[:500]}, model={'status': r['status']}))
                 # the property, checked against the library directly: one line per file, in order
-                exp_out, exp_err = [], []
+                exp_out, exp_err, exp_body, body_known = [], [], [], True
                 for n, p in zip(lst, paths):
                     try:
                         with warnings.catch_warnings():
                             warnings.simplefilter('ignore')
                             mo = impl.MosFile.from_file(p)
                         exp_out.append(f'{p}: {type(mo).__name__}' + (' (completed)' if mo.completed else ''))
+                        exp_body.append(exp_out[-1])
+                        il = inspect_lines_of(mo)
+                        body_known = body_known and il is not None
+                        exp_body.extend(il or [])
                     except Exception:  # noqa: BLE001
                         exp_err.append(p)
                 got_detect = [l for l in split_lines(so) if any(l.startswith(p + ': ') for p in paths)]
                 if cmd == 'detect' and got_detect != exp_out:
                     bad.append('detect lines differ from the library classification of each file in order')
+                elif cmd == 'detect' and [l for l in split_lines(so) if l.strip()] != exp_out:
+                    bad.append('detect prints something besides one class line per classifiable file')
+                if cmd == 'inspect' and r['status'] == 0 and body_known and [l for l in split_lines(so) if l.strip()] != exp_body:
+                    bad.append("inspect does not print, for every classifiable file in order, its class line followed by what the library's inspect() prints for it")
                 if [l.split(': ')[0] for l in split_lines(se) if ': Invalid' in l] != exp_err and (cmd == 'detect' or r['status'] == 0):
                     bad.append('invalid/unreadable files are not all marked (or others were skipped)')
                 if cmd == 'detect' and status != 0:
